@@ -3,6 +3,9 @@
 import json, subprocess
 ALL = ["C%02d" % i for i in range(1, 21)]
 CLAIMED = {
+ "C15": dict(level="exploration", technique="runtime monitor with a recording Cronner (harness implementation of cron.Cronner) and a model of live scheduled rules: registrations compared after every step, ticks delivered for every current and former registration; canary-judged timed scenario on the real built-in cron",
+   text="Generated histories over three locations sharing rule ids (add / overwrite scheduled<->ordinary<->fact / remove / cascade / clear / reload, persistent and ephemeral cron, both states) are checked step by step: registered == live scheduled rules per location, a tick runs exactly its rule in its own location, one-shots run once and vanish, stale ticks run nothing; the built-in cron is exercised with +1s rules of one id in two locations.",
+   note="The recorder keys by (location, id) to report what the engine asked for; stale registrations after cascade deletes and after expiry are open findings keyed by step kind.", ref="§5 C15"),
  "C09": dict(level="exploration", technique="non-interference monitor with a per-location reference model: after every operation of generated forest histories the own and inherited views of every location are compared; loop cases under a watchdog in their own child process",
    text="Histories spread over 3-6 locations with changing parent sets (chains, fans, diamonds) are run through SimpleLocationProvider and sys.System; an operation on one location must change the own view of no other and the inherited view exactly as the transitive-parent union says, events at a parent must not reach children, and looping chains must yield the loop error instead of recursing.",
    note="Trusts lib/ref per location; rule ids unique across locations; through the System a remove of an absent id is an unacknowledged (failed) operation.", ref="§5 C09"),
